@@ -39,15 +39,25 @@ containment("_filter:_unpack_filter_attribute_value_assertion", options=_FO, ens
 _PO = "PackingOptions()"
 for _n in ("bind_request", "bind_response", "extended_request", "extended_response", "search_request", "search_result_done",
            "search_result_entry", "search_result_reference"):
-    containment("_messages:_unpack_%s" % _n, options=_PO)
+    containment("_messages:_unpack_%s" % _n, options=_PO, ensures=["result.message_id == message_id"])
 containment("_messages:_unpack_ldap_result", options=_PO, local_types={"referrals": "t.List[str]"})
 containment("_messages:_unpack_partial_attribute", options=_PO, ensures=[_PROGRESS])
 
 # The envelope's content decoder: its functional postcondition (result == dec_content(octets, options)) stays an assumed
 # determinism statement in contracts/messages.py; the exception classes that contract lists are what is proved here, from
 # the body, under a second contract key.
+# object.__setattr__(msg, "name", ...) on the decoded ExtendedResponse (MS-ADTS responseName): every other field is unchanged
+EXTRAS.setdefault("sym_frames", {})["name"] = [("fld_message_id", "int"), ("fld_result", "obj"), ("fld_value", "bytes"), ("fld_value_isnone", "bool"), ("fld_controls", "seqobj")]
+_MV = "old(message._view)"
+_OPV = "rest_of(%s)" % _MV          # the protocolOp element follows the messageID
+_KINDS = (("BindRequest", 0), ("BindResponse", 1), ("UnbindRequest", 2), ("SearchRequest", 3), ("SearchResultEntry", 4), ("SearchResultDone", 5),
+          ("SearchResultReference", 19), ("ExtendedRequest", 23), ("ExtendedResponse", 24))
 containment("_messages:_unpack_ldap_message_content[containment]", reader="message", options=_PO,
-            local_types={"controls": "t.List[LDAPControl]"})
+            local_types={"controls": "t.List[LDAPControl]"},
+            # value level (C04 / C01): the messageID is the value of the first element, whatever its length form; the message class is
+            # chosen by the APPLICATION tag number of the second element
+            ensures=["result.message_id == tc(content_of(%s))" % _MV, "id_class(%s) == 1" % _OPV] +
+                    ["isinstance(result, %s) == (id_number(%s) == %d)" % (k, _OPV, n) for k, n in _KINDS])
 
 # ================================================================================================ value-level contracts (C04 / C01, pilot)
 # What the decoder returns, stated over the X.690 denotation of the octets it was given (content_of / rest_of / id_* accept
